@@ -128,7 +128,7 @@ func (c *otApplyContext) applyGPOS(table tables.GPOSLookup) bool {
 	buffer := c.buffer
 	glyphID := buffer.cur(0).Glyph
 	glyphPos := buffer.curPos(0)
-	index, ok := table.Cov().Index(gID(glyphID))
+	index, ok := getCoverage(table.Cov(), gID(glyphID))
 	if !ok {
 		return false
 	}
@@ -674,7 +674,7 @@ func (c *otApplyContext) applyGPOSMarkToMark(data tables.MarkMarkPos, mark1Index
 	return false
 
 good:
-	mark2Index, ok := data.Mark2Coverage.Index(gID(buffer.Info[j].Glyph))
+	mark2Index, ok := getCoverage(data.Mark2Coverage, gID(buffer.Info[j].Glyph))
 	if !ok {
 		return false
 	}
